@@ -1,0 +1,67 @@
+//! Verification hooks: thin public wrappers around the crate-private layer helpers so that an
+//! external harness can exercise them directly. Compiled only with `--cfg libcnb_rs_verif`.
+#![allow(missing_docs, clippy::missing_errors_doc, clippy::must_use_candidate)]
+
+use crate::layer::shared;
+use crate::sbom::Sbom;
+use libcnb_data::generic::GenericMetadata;
+use libcnb_data::layer::LayerName;
+use libcnb_data::layer_content_metadata::{LayerContentMetadata, LayerTypes};
+use std::collections::HashMap;
+use std::path::{Path, PathBuf};
+
+pub fn delete_layer(layers_dir: &Path, layer_name: &LayerName) -> Result<(), shared::DeleteLayerError> {
+    shared::delete_layer(layers_dir, layer_name)
+}
+
+pub fn remove_dir_recursively(dir: &Path) -> std::io::Result<()> {
+    crate::util::remove_dir_recursively(dir)
+}
+
+pub fn read_layer(
+    layers_dir: &Path,
+    layer_name: &LayerName,
+) -> Result<Option<(PathBuf, LayerContentMetadata<GenericMetadata>)>, shared::ReadLayerError> {
+    shared::read_layer::<GenericMetadata, _>(layers_dir, layer_name)
+        .map(|layer| layer.map(|layer| (layer.path, layer.metadata)))
+}
+
+pub fn write_layer(
+    layers_dir: &Path,
+    layer_name: &LayerName,
+    layer_content_metadata: &LayerContentMetadata<GenericMetadata>,
+) -> Result<(), shared::WriteLayerError> {
+    shared::write_layer(layers_dir, layer_name, layer_content_metadata)
+}
+
+pub fn replace_layer_metadata(
+    layers_dir: &Path,
+    layer_name: &LayerName,
+    metadata: GenericMetadata,
+) -> Result<(), shared::WriteLayerMetadataError> {
+    shared::replace_layer_metadata(layers_dir, layer_name, metadata)
+}
+
+pub fn replace_layer_types(
+    layers_dir: &Path,
+    layer_name: &LayerName,
+    layer_types: LayerTypes,
+) -> Result<(), shared::WriteLayerMetadataError> {
+    shared::replace_layer_types(layers_dir, layer_name, layer_types)
+}
+
+pub fn replace_layer_sboms(
+    layers_dir: &Path,
+    layer_name: &LayerName,
+    sboms: &[Sbom],
+) -> Result<(), shared::ReplaceLayerSbomsError> {
+    shared::replace_layer_sboms(layers_dir, layer_name, sboms)
+}
+
+pub fn replace_layer_exec_d_programs(
+    layers_dir: &Path,
+    layer_name: &LayerName,
+    exec_d_programs: &HashMap<String, PathBuf>,
+) -> Result<(), shared::ReplaceLayerExecdProgramsError> {
+    shared::replace_layer_exec_d_programs(layers_dir, layer_name, exec_d_programs)
+}
